@@ -1127,3 +1127,7 @@ m('C03','drop-after-hole',PM,
 m('C20','wrong-clockrate',DW,
   '\t\t\t\tuint32(rtptime.FromDuration(\n\t\t\t\t\toffset,\n\t\t\t\t\ttt.remote.Codec().ClockRate,\n\t\t\t\t)),','\t\t\t\tuint32(rtptime.FromDuration(\n\t\t\t\t\toffset,\n\t\t\t\t\tt.remote.Codec().ClockRate,\n\t\t\t\t)),',
   'R20.7','ticks for tt.origin','audio origin shifted with the video clock rate')
+m('C10','stale-member-snapshot','group/group.go',
+  '\tg.mu.Lock()\n\tdefer g.mu.Unlock()\n\n\tclients := g.getClientsUnlocked(nil)\n\n\tvar username string',
+  '\tclients := g.GetClients(nil)\n\n\tg.mu.Lock()\n\tdefer g.mu.Unlock()\n\n\tvar username string',
+  'R10.2','member snapshot taken under the lock','operator-present test and announcements run on a membership read in an earlier critical section (seeded C10-2)')
